@@ -32,9 +32,10 @@ RULE = (
     "custom-matrix flag) any/exact/containing/restricting; every custom_*_flag and asym_*_flag any/{F,T}/{True}/{False}; preset "
     "index cells any/index-0-only/presets-only/exact/containing; base_video_format any/subset/other-field-order; value cells "
     "any/exact/containing/restricting/empty; wavelet_index_ho and dwt_depth_ho restricted only when the configuration is "
-    "symmetric in that respect (the encoder then owns the choice not to emit them). Caller-owned unchecked keys "
+    "symmetric in that respect (the encoder then owns the choice not to emit them); tables are drawn loose / medium / tight, and "
+    "a quarter are 'one_trivial': loose but excluding the configuration's value of exactly one trivial key. Caller-owned unchecked keys "
     "(quant_matrix_values, slice_size_scaler, major/minor_version, qindex, total_slice_bytes, ho keys of asymmetric "
-    "configurations) are 'any' in this stratum. Real stratum: level 1 (quick: base formats 1-4; thorough also level 2 columns) "
+    "configurations) are 'any' in this stratum. Real stratum: level 1 (base formats 1-4; thorough also 24 level-2 cases) "
     "with configurations built from the table, a third with one perturbed parameter group or an asymmetric transform. "
     "Diagnostic stratum (never a violation): exactly one caller-owned key restricted, everything else any; thorough also one "
     "real level-64 and level-65 stream. Oracle: make_sequence raises a subclass of UnsatisfiableCodecFeaturesError (counted) or "
@@ -314,7 +315,7 @@ DIAG_CELLS = {
     "slice_size_scaler": [{"v": [1]}, {"v": [2]}, {"v": []}],
     "major_version": [{"v": [1]}, {"v": [2]}, {"v": [3]}],
     "minor_version": [{"v": [0]}, {"v": [1]}],
-    "qindex": [{"v": [0]}, {"r": [[0, 7]]}],
+    "qindex": [{"v": [0]}, {"r": [[0, 7]]}, {"r": [[1, 9]]}],
     "total_slice_bytes": [{"r": [[0, 8]]}, {"r": [[0, 64]]}, {"v": []}],
     "wavelet_index_ho": [{"v": []}, {"v": [0]}, {"v": [1, 2]}],
     "dwt_depth_ho": [{"v": []}, {"v": [1]}, {"v": [2]}],
@@ -342,15 +343,15 @@ def cases(draw, stratum):
 
 
 @st.composite
-def real_cases(draw, thorough):
-    """Level 1 (and level 2 in the thorough tier) configurations built from the real table."""
-    cols = [(i, c) for i, c in H.real_columns() if H._cell_values(c["level"], [])[0] in ((1, 2) if thorough else (1,))]
+def real_cases(draw, levels=(1,)):
+    """Level 1 (level 2 in dedicated thorough shards) configurations built from the real table."""
+    cols = [(i, c) for i, c in H.real_columns() if H._cell_values(c["level"], [])[0] in levels]
     ci, col = cols[draw(st.integers(0, len(cols) - 1))]
     level = H._cell_values(col["level"], [])[0]
     bases = H._cell_values(col["base_video_format"], [])
     if level == 1:
-        bases = [b for b in bases if b <= (4 if not thorough else 6)]
-        bases = bases[:2] * 3 + bases  # prefer the 176 pixel wide ones
+        bases = [b for b in bases if b <= 4]
+        bases = bases[:2] * 4 + bases  # prefer the 176 pixel wide ones (cost)
     b = draw(st.sampled_from(bases))
     pcm = PictureCodingModes(draw(st.sampled_from(H._cell_values(col["picture_coding_mode"], [0, 1]))))
     vp = H.base_vp(b)
@@ -571,18 +572,20 @@ def big_real(level, col):
 def shards(tier):
     if tier == "quick":
         return [("main", k) for k in range(12)] + [("diag", k) for k in range(2)] + [("real", k) for k in range(2)]
-    return ([("main", k) for k in range(44)] + [("diag", k) for k in range(6)] + [("real", k) for k in range(12)]
-            + [("big", 64), ("big", 65)])
+    return ([("main", k) for k in range(44)] + [("diag", k) for k in range(6)] + [("real", k) for k in range(8)]
+            + [("real2", k) for k in range(4)] + [("big", 64), ("big", 65)])
 
 
 def run_shard(spec, ctx):
     kind, k = spec
     if kind == "main":
-        run_given(cases("main"), body, ctx, ctx.pick(330, 9000))
+        run_given(cases("main"), body, ctx, ctx.pick(250, 900))
     elif kind == "diag":
-        run_given(cases("diag"), body, ctx, ctx.pick(300, 3000))
+        run_given(cases("diag"), body, ctx, ctx.pick(200, 600))
     elif kind == "real":
-        run_given(real_cases(ctx.thorough), body, ctx, ctx.pick(40, 260))
+        run_given(real_cases((1,)), body, ctx, ctx.pick(30, 100))
+    elif kind == "real2":
+        run_given(real_cases((2,)), body, ctx, 6, shrink=False)
     else:
         big_real(k, ctx.col)
 
